@@ -19,6 +19,7 @@ import (
 	"github.com/taskctl/taskctl/pkg/runner"
 	"github.com/taskctl/taskctl/pkg/scheduler"
 	"github.com/taskctl/taskctl/pkg/task"
+	"github.com/taskctl/taskctl/pkg/variables"
 )
 
 // Scenario is one placement of runs at hold points (CancelGen.tla).
@@ -267,6 +268,11 @@ func Worker(arg string) int {
 		stages = make([]*scheduler.Stage, sc.NR+1)
 		for i := 1; i <= sc.NR; i++ {
 			st := &scheduler.Stage{Name: fmt.Sprintf("s%d", i), Task: tasks[i]}
+			if i%2 == 0 {
+				// stage-level settings, as every stage built from a configuration file has: the stage
+				// then executes a private copy of its task
+				st.Variables = variables.FromMap(map[string]string{".Stage.Name": st.Name})
+			}
 			if sc.Hold[i-1] == "waiting" {
 				if sc.CondErr && cerrStage == 0 {
 					cerrStage = i
